@@ -38,6 +38,10 @@ CHECKS = {
    "exhaustive enumeration of feature-pair multisets x every insertion order x orientation x filter on the real Piler, differential across orders and against a union-find reference",
    "Every multiset of <=3 pairs over all intervals in [0,5] (thorough [0,6]) on one location and every multiset of <=2 pairs over two locations, every insertion order, both orientations of each pair, four filters, repeated Piles calls and re-insertion of each pair: partition, pile extents, disjointness, membership, mate links and duplicate rejection compared with a union-find model on every case.",
    "Zero overlap slack only (as the statement says); small coordinates; Piles is called after all Adds."),
+ "C06": (E3, "exploration", "DESIGN.md §3 C06",
+   "bounded-exhaustive enumeration of sequences, offsets, ranges, feature lists and quality vectors against positional reference implementations",
+   "Every (start,end) pair around sequences of length 0..5 (6) at offsets -2/0/3, linear and circular, dst==src and dst!=src; every length pair for Join; every list of <=2 (3) features intersecting or abutting the sequence with every orientation kind, complementing and non-complementing alphabets; every (limit-e) vector of length <=6 (7) over 5 dyadic values for Trim. Distinct letters and qualities per position, so any misplaced letter is visible; aliasing is detected by overwriting the result.",
+   "linear.Seq and linear.QSeq only; Compose features at least abut the sequence; Trim accepts an empty window anywhere."),
 }
 PENDING = {}  # id -> reason, for properties not (yet) claimed
 
